@@ -6,6 +6,7 @@
 (*                            IF bits 0-1 raised during it (IF cleared after) *)
 (*         [1, ly, mode]      LCDC bit 7 written 1, then LY and mode          *)
 (*         [2, ly, mode]      LCDC bit 7 written 0, then LY and mode          *)
+(*         [3, ly, mode, a, v] another LCD register (FF00+a) written with v   *)
 EXTENDS PPU, TLC, Json, IOUtils, Sequences
 
 Scens == ndJsonDeserialize(IOEnv.TRACE)
@@ -37,6 +38,9 @@ Next == /\ l <= Len(Scens[sc].ev) /\ l' = l + 1 /\ UNCHANGED sc
            CASE e[1] = 0 -> TickEv(e)
              [] e[1] = 1 -> LcdOn /\ Shows(e)
              [] e[1] = 2 -> LcdOff /\ Shows(e)
+             \* LY, scroll, palette, window registers written: nothing moves. What LY reads between the write and the end
+             \* of that machine cycle is not judged (no program can read it there); the next tick event is.
+             [] e[1] = 3 -> UNCHANGED pvars
              [] OTHER    -> FALSE            \* [9, what]: the PPU panicked
 
 Spec == Init /\ [][Next]_vars
